@@ -66,6 +66,10 @@ def fault_sites(block):
     out.append(('unconnected_wire', 0))
     if len(wires) >= 2:
         out.append(('duplicate_name', 0))
+        # duplicates created through the public name setter (by-name map stays self-consistent),
+        # for every pair of name classes: user / auto-generated tmp / auto-generated const
+        for k in range(6):
+            out.append(('duplicate_name_setter', k))
     out.append(('no_bitwidth_wire', 0))
     out.append(('byname_inconsistent', 0))
     return out
@@ -77,7 +81,7 @@ def apply_fault(block, kind, idx):
     import pyrtl
     from pyrtl import LogicNet
     nets = sorted_nets(block)
-    n = nets[idx] if nets else None
+    n = nets[idx] if nets and idx < len(nets) else (nets[0] if nets else None)
 
     def fresh(bw, cls=pyrtl.WireVector, name=None):
         return cls(bw, name or '', block=block) if cls is not pyrtl.Const else None
@@ -191,6 +195,20 @@ def apply_fault(block, kind, idx):
     elif kind == 'duplicate_name':
         ws = sorted(block.wirevector_set, key=lambda w: w.name)
         ws[0]._name = ws[1].name
+    elif kind == 'duplicate_name_setter':
+        ws = sorted(block.wirevector_set, key=lambda w: w.name)
+        tmp = [w for w in ws if w.name.startswith('tmp')]
+        con = [w for w in ws if w.name.startswith('const_')]
+        usr = [w for w in ws if not w.name.startswith('tmp') and not w.name.startswith('const_')
+               and not isinstance(w, pyrtl.Const)]
+        pairs = [(usr, tmp), (usr, con), (tmp, tmp), (usr, usr), (tmp, con), (con, con)][idx]
+        a, b = pairs
+        cand = [(x, y) for x in a for y in b if x is not y and not isinstance(x, pyrtl.Const)]
+        if not cand:
+            return False
+        x, y = cand[0]
+        with pyrtl.set_working_block(block, no_sanity_check=True):
+            x.name = y.name
     elif kind == 'no_bitwidth_wire':
         w = pyrtl.WireVector(None, 'flt_nobw', block=block)
         o = fresh(1, pyrtl.Output, 'flt_out')
